@@ -44,6 +44,39 @@ structure EntryFacts (t : Table) (op : Op) (t' : Table) (r : Res) : Prop where
   /-- a limit rejection changes no path -/
   limit : r = .limit → ∀ f n, t'.entries f n = t.entries f n
 
+/-- the step removes the existing path `x0` of prefix (f, n) (tested on the table before the step;
+    for `insert`: the path it overwrites, if it is accepted) -/
+def Op.removes (op : Op) (t : Table) (f : Fam) (n : Net) (x0 : Entry) : Bool :=
+  match op with
+  | .insert src fam net rpid _ _ _ _ => f == fam && n == net && x0.src.addr == src.addr && x0.rpid == rpid
+  | .remove src fam net rpid => f == fam && n == net && x0.src.addr == src.addr && x0.rpid == rpid
+  | .drop a fam => f == fam && sameAddr a x0
+  | .dropStale a fam _ => f == fam && sameAddr a x0 && x0.isStale t.flags
+  | .dropLlgr a fam _ => f == fam && sameAddr a x0 && t.flags.llgr.contains x0.src.id
+  | .dropNoLlgr a fam _ => f == fam && sameAddr a x0 && x0.attr.hasNoLlgr
+  | _ => false
+
+/-- the sessions a step marks: ids of the sources of peer `a` that hold a path in family `f` -/
+def marksOf (t : Table) (a : Nat) (f : Fam) (i : Nat) : Prop :=
+  ∃ n, ∃ x ∈ t.entries f n, sameAddr a x = true ∧ x.src.id = i
+
+/-- The EXACT evolution of the path set and of the stale markers in one step that is not a limit
+    rejection (a limit rejection changes nothing: `EntryFacts.limit`). -/
+structure EntryExact (t : Table) (op : Op) (t' : Table) (r : Res) : Prop where
+  /-- a path the step does not remove stays (flipped by a next-hop validity update) -/
+  keep : r ≠ .limit → ∀ f n x0, x0 ∈ t.entries f n → op.removes t f n x0 = false → op.flip x0 ∈ t'.entries f n
+  /-- an accepted `insert` creates its path -/
+  ins : r ≠ .limit → ∀ f n, (∃ x, op.inserts f n x) → ∃ x ∈ t'.entries f n, op.inserts f n x
+  /-- nothing else is there afterwards -/
+  only : r ≠ .limit → ∀ f n x, x ∈ t'.entries f n →
+      (∃ x0 ∈ t.entries f n, x = op.flip x0 ∧ op.removes t f n x0 = false) ∨ op.inserts f n x
+  stale : ∀ i, i ∈ t'.stale ↔ (i ∈ t.stale ∨ ∃ a f, op = .restale a f ∧ marksOf t a f i)
+  llgr : ∀ i, i ∈ t'.llgr ↔ (i ∈ t.llgr ∨ ∃ a f, op = .restaleLlgr a f ∧ marksOf t a f i)
+
+def ExactSound (sel : Op → Prop) : Prop :=
+  ∀ (c : Case) (g : Nat → Fam) (p : Profile) (t : Table) (op : Op) (t' : Table) (r : Res),
+    sel op → op.WF c g → Inv c g t → t.step p op = .ok (t', r) → EntryExact t op t' r
+
 /-- What each per-operation proof file additionally establishes for its operations. -/
 def EntrySound (sel : Op → Prop) : Prop :=
   ∀ (c : Case) (g : Nat → Fam) (p : Profile) (t : Table) (op : Op) (t' : Table) (r : Res),
